@@ -36,7 +36,7 @@ pub trait Sh {
     fn dyn_ok(&self, seed: u32) -> bool;
     fn dyn_size(&self) -> usize;
 }
-pub trait Shape: Copy + Sized + Sh + 'static {
+pub trait Shape: Copy + Sized + Sh + PartialEq + 'static {
     const NAME: &'static str;
     fn make(seed: u32) -> Self;
     fn ok(&self, seed: u32) -> bool;
@@ -46,7 +46,7 @@ fn pat(seed: u32, i: usize) -> u8 { (seed.wrapping_mul(31).wrapping_add(i as u32
 
 macro_rules! shape {
     ($name:ident, $size:literal, $align:literal) => {
-        #[derive(Clone, Copy)]
+        #[derive(Clone, Copy, PartialEq)]
         #[repr(C, align($align))]
         pub struct $name([u8; $size]);
         impl Shape for $name {
@@ -788,6 +788,19 @@ impl<'a, 'b> Visit for StrV<'a, 'b> { type Out = (); fn visit<H: Shape>(self) { 
 
 fn run_union<A: Shape, B: Shape>(c: &Case, o: &mut Obs) {
     let seed = c.seed;
+    // equal types: a First and a Second union over the SAME allocation must still be told apart
+    if core::any::TypeId::of::<A>() == core::any::TypeId::of::<B>() {
+        let base: Arc<A> = Arc::new(A::make(seed));
+        let dup = core::mem::ManuallyDrop::new(base.clone());
+        let as_b: Arc<B> = unsafe { core::mem::transmute_copy::<Arc<A>, Arc<B>>(&*dup) };
+        let f = ArcUnion::<A, B>::from_first(base);
+        let s = ArcUnion::<A, B>::from_second(as_b);
+        o.b("x_eq", f == s);
+        o.b("x_ne", f != s);
+        o.b("x_ptr_eq", ArcUnion::ptr_eq(&f, &s));
+        o.b("x_variants", f.is_first() && s.is_second());
+        o.num("x_cnt", ArcUnion::strong_count(&f) as i128);
+    }
     let mut cx = Cx::new();
     set_recording(true);
     lib_mark();
